@@ -18,7 +18,7 @@ import sys
 
 HERE = os.path.dirname(os.path.dirname(os.path.abspath(__file__)))
 sys.path.insert(0, HERE)
-from sa.core import template, control                 # noqa: E402
+from sa.core import template, control, defuse         # noqa: E402
 from sa.core.loader import Repo                       # noqa: E402
 from sa.core.report import Ctx, AnalysisError         # noqa: E402
 from sa.props.registry import CLAIMS                  # noqa: E402
@@ -29,6 +29,7 @@ def main():
     write = '--write' in sys.argv
     pids = [a.upper() for a in args] or sorted(CLAIMS)
     table = control.load_table()
+    dutable = defuse.load_table()
     for pid in pids:
         try:
             mod = importlib.import_module(f'sa.props.{pid.lower()}')
@@ -55,10 +56,17 @@ def main():
                     print(f'        if {c}')
         if write:
             table[pid] = ent
-            print(pid, len(ent), 'statements')
+            du = defuse.collect(ctx)
+            dutable[pid] = {k: {'stmts': v['stmts'], 'keys': v['keys']}
+                            for k, v in du.items()}
+            print(pid, len(ent), 'statements;', len(du), 'functions,',
+                  sum(len(v['stmts']) for v in du.values()),
+                  'statements with reaching definitions')
     if write:
         with open(control.TABLE, 'w') as f:
             json.dump(table, f, indent=1, sort_keys=True)
+        with open(defuse.TABLE, 'w') as f:
+            json.dump(dutable, f, sort_keys=True)
 
 
 main()
